@@ -120,7 +120,10 @@ func (m *Model) runCheck(prop, tier string, keep bool, timeout int) int {
 			// the proofs of this property's clauses assume the function's run-time safety obligations
 			// (each is assumed once stated), so those are checked along with them for every function
 			// whose contract header names the property
-			safetyOfOwn := hasStr(ct.Props, prop) && isSafetyKind(o.Kind)
+			// ... and likewise its loop invariants, frames and type invariants: every obligation of a function
+			// whose contract header names the property is checked with it (clauses of other functions only when
+			// tagged with the property)
+			safetyOfOwn := ct.hasProp(prop)
 			if o.Smoke || hasStr(o.Props, prop) || safetyOfOwn {
 				sel = append(sel, o)
 			}
@@ -175,6 +178,39 @@ func (m *Model) runCheck(prop, tier string, keep bool, timeout int) int {
 		<-done
 	}
 
+	// second chance for obligations that were not discharged: a loaded machine can push a query over the
+	// quick timeout.  Re-run them a few at a time with four times the budget before calling it a violation
+	// (at most 12, so a tree that really breaks many obligations is still reported quickly).
+	{
+		var again []task
+		for _, t := range tasks {
+			if !t.o.Smoke && t.o.Status != "unsat" && t.o.Status != "sat" && t.o.Status != "failed" && t.o.Status != "error" {
+				again = append(again, t)
+			}
+		}
+		if len(again) > 12 {
+			again = again[:12]
+		}
+		opt2 := opt
+		opt2.timeoutS = tmo * 4
+		sem2 := make(chan struct{}, 4)
+		done2 := make(chan struct{}, len(again))
+		for _, t := range again {
+			sem2 <- struct{}{}
+			go func(t task) {
+				first := t.o.Status
+				t.e.solveOne(t.o, opt2, t.i+200000)
+				if t.o.Status == "unsat" {
+					t.o.Output += fmt.Sprintf("(first attempt with the quick budget: %s)\n", first)
+				}
+				<-sem2
+				done2 <- struct{}{}
+			}(t)
+		}
+		for range again {
+			<-done2
+		}
+	}
 	known := loadKnown()
 	var recs []oblRecord
 	var samples []interface{}
